@@ -1,8 +1,18 @@
 // Harness for C05 (MID de-duplication): one scenario per input line, run on a real udp/client.Conn
 // over the in-memory session inside a testing/synctest bubble.
 //
-//	own <getmid> | recv <con|non> <mid> <tokhex> <beh> | par <k> <con|non> <mid> <tokhex> <beh>
-//	  | blk <con|non> <mid> <tokhex> <dur> <k> <con|non> | sleep <ns> | tick | flush
+//	own <getmid> [<level>] | recv <con|non> <mid> <tokhex> <beh> | par <k> <con|non> <mid> <tokhex> <beh>
+//	  | blk <con|non> <mid> <tokhex> <dur> <k> <con|non> | sleep <ns> | tick | flush | newconn
+//
+// level: how the connection under test comes into being —
+//
+//	hand     (default) udp/client.NewConnWithOpts over the in-memory session, configuration written by hand
+//	dtlssrv  accepted by a real dtls.Server (dtls/server: createConn, Session) serving an in-memory listener; the
+//	         peer is the other end of a net.Pipe (one Write = one datagram); `tick` is the function the server
+//	         hands to its periodic runner
+//	udpsrv   (TestC05UDPServer, real loopback sockets, real time, no synctest) made by a real udp.Server listening on
+//	         0.0.0.0 (udp/server: getOrCreateConn, peer table); `newconn` = the application calls Server.NewConn(peer);
+//	         only confirmable requests with behaviours that answer at once (every copy gets exactly one datagram)
 //
 // beh: pb (2.05 + payload = handler invocation number), pbe (4.04, no payload), none, sep (no
 // response through the writer; a NON response is sent by `flush`), empty (code 0.00).
@@ -16,6 +26,7 @@ import (
 	"bytes"
 	"context"
 	"fmt"
+	"net"
 	"runtime"
 	"sort"
 	"strconv"
@@ -25,10 +36,13 @@ import (
 	"testing/synctest"
 	"time"
 
+	coapdtls "github.com/plgd-dev/go-coap/v3/dtls"
+	dtlsserver "github.com/plgd-dev/go-coap/v3/dtls/server"
 	"github.com/plgd-dev/go-coap/v3/message"
 	"github.com/plgd-dev/go-coap/v3/message/codes"
 	"github.com/plgd-dev/go-coap/v3/message/pool"
 	"github.com/plgd-dev/go-coap/v3/net/responsewriter"
+	"github.com/plgd-dev/go-coap/v3/options"
 	udpclient "github.com/plgd-dev/go-coap/v3/udp/client"
 	udpcoder "github.com/plgd-dev/go-coap/v3/udp/coder"
 	"verifharness/internal/lp"
@@ -84,9 +98,17 @@ func buildAck(mid int32) []byte {
 	return append([]byte(nil), b...)
 }
 
+// link is the path between the harness ("the peer") and the connection under test.
+type link struct {
+	inject   func(data []byte)   // a datagram from the peer arrives
+	takeSent func() [][]byte     // datagrams the connection has written since the last call
+	tick     func(now time.Time) // housekeeping
+	close    func()
+}
+
 type scenario struct {
 	cc      *udpclient.Conn
-	s       *mem.UDPSession
+	lk      link
 	mu      sync.Mutex
 	counter int
 	hlog    []int
@@ -160,9 +182,9 @@ func (sc *scenario) observe() string {
 		hs = strings.Join(p, ",")
 	}
 	var ds []string
-	for _, d := range sc.s.TakeSent() {
+	for _, d := range sc.lk.takeSent() {
 		m := pool.NewMessage(context.Background())
-		if _, err := m.UnmarshalWithDecoder(udpcoder.DefaultCoder, d.Data); err != nil {
+		if _, err := m.UnmarshalWithDecoder(udpcoder.DefaultCoder, d); err != nil {
 			ds = append(ds, "undecodable")
 			continue
 		}
@@ -198,8 +220,108 @@ func (sc *scenario) onWrite(data []byte) {
 	}
 	sc.mu.Unlock()
 	if auto {
-		go func() { _ = sc.cc.Process(nil, buildAck(mid)) }()
+		go func() { sc.lk.inject(buildAck(mid)) }()
 	}
+}
+
+// handLink: the connection is built by hand over the in-memory session.
+func (sc *scenario) handLink(getmid int32) {
+	var s *mem.UDPSession
+	sc.cc, s = mem.NewUDPConn(mem.UDPOpts{Mutate: func(cfg *udpclient.Config) {
+		cfg.Handler = sc.handler
+		cfg.GetMID = func() int32 { return getmid }
+	}})
+	s.OnWrite = sc.onWrite
+	sc.lk = link{
+		inject: func(d []byte) { _ = sc.cc.Process(nil, d) },
+		takeSent: func() [][]byte {
+			var out [][]byte
+			for _, x := range s.TakeSent() {
+				out = append(out, x.Data)
+			}
+			return out
+		},
+		tick:  func(now time.Time) { sc.cc.CheckExpirations(now) },
+		close: func() { _ = sc.cc.Close() },
+	}
+}
+
+type memAddr string
+
+func (a memAddr) Network() string { return "mem" }
+func (a memAddr) String() string  { return string(a) }
+
+// getMIDOpt sets Config.GetMID of a dtls server (there is no option constructor for it).
+type getMIDOpt struct{ f func() int32 }
+
+func (o getMIDOpt) DTLSServerApply(cfg *dtlsserver.Config) { cfg.GetMID = o.f }
+
+// dtlsLink: the connection is the one a real dtls.Server creates for an accepted connection (no handshake: the
+// listener hands out a plain net.Pipe end). Returns false if the server did not come up.
+func (sc *scenario) dtlsLink(getmid int32) bool {
+	var tickFn func(now time.Time) bool
+	ch := make(chan *udpclient.Conn, 1)
+	srv := coapdtls.NewServer(
+		options.WithErrors(func(error) {}),
+		options.WithMessagePool(pool.New(64, 2048)),
+		options.WithPeriodicRunner(func(f func(now time.Time) bool) { tickFn = f }),
+		options.WithInactivityMonitor(100000*time.Hour, func(*udpclient.Conn) {}),
+		options.WithHandlerFunc(sc.handler),
+		getMIDOpt{func() int32 { return getmid }},
+		options.WithOnNewConn(func(cc *udpclient.Conn) { ch <- cc }),
+	)
+	l := mem.NewListener()
+	served := make(chan struct{})
+	go func() { _ = srv.Serve(l); close(served) }()
+	a, b := net.Pipe()
+	var mu sync.Mutex
+	var got [][]byte
+	readerDone := make(chan struct{})
+	go func() {
+		defer close(readerDone)
+		buf := make([]byte, 65536)
+		for {
+			n, err := b.Read(buf)
+			if n > 0 {
+				d := append([]byte(nil), buf[:n]...)
+				mu.Lock()
+				got = append(got, d)
+				mu.Unlock()
+				sc.onWrite(d)
+			}
+			if err != nil {
+				return
+			}
+		}
+	}()
+	l.Push(&mem.AddrConn{Conn: a, Local: memAddr("server"), Remote: memAddr("peer")})
+	synctest.Wait()
+	select {
+	case sc.cc = <-ch:
+	default:
+	}
+	sc.lk = link{
+		inject: func(d []byte) { _, _ = b.Write(d) },
+		takeSent: func() [][]byte {
+			mu.Lock()
+			defer mu.Unlock()
+			o := got
+			got = nil
+			return o
+		},
+		tick: func(now time.Time) {
+			if tickFn != nil {
+				tickFn(now)
+			}
+		},
+		close: func() {
+			srv.Stop()
+			_ = b.Close()
+			<-readerDone
+			<-served
+		},
+	}
+	return sc.cc != nil && tickFn != nil
 }
 
 func runScenario(t *testing.T, line string) (out string) {
@@ -208,21 +330,34 @@ func runScenario(t *testing.T, line string) (out string) {
 	synctest.Test(t, func(t *testing.T) {
 		sc := &scenario{}
 		getmid := int32(0)
+		level := "hand"
 		first := strings.Fields(ops[0])
-		if len(first) == 2 && first[0] == "own" {
+		if len(first) >= 2 && first[0] == "own" {
 			v, _ := strconv.ParseInt(first[1], 10, 64)
 			getmid = int32(v)
+			if len(first) >= 3 {
+				level = first[2]
+			}
 		}
-		sc.cc, sc.s = mem.NewUDPConn(mem.UDPOpts{Mutate: func(cfg *udpclient.Config) {
-			cfg.Handler = sc.handler
-			cfg.GetMID = func() int32 { return getmid }
-		}})
+		sc.autoAck = true
+		switch level {
+		case "hand":
+			sc.handLink(getmid)
+		case "dtlssrv":
+			if !sc.dtlsLink(getmid) {
+				sc.lk.close()
+				synctest.Wait()
+				segs = append(segs, "conn-error")
+				return
+			}
+		default:
+			segs = append(segs, "bad-level")
+			return
+		}
 		defer func() {
-			_ = sc.cc.Close()
+			sc.lk.close()
 			synctest.Wait()
 		}()
-		sc.autoAck = true
-		sc.s.OnWrite = sc.onWrite
 		for _, op := range ops {
 			f := strings.Fields(op)
 			if len(f) == 0 {
@@ -236,17 +371,14 @@ func runScenario(t *testing.T, line string) (out string) {
 			case "recv":
 				mid, _ := strconv.ParseInt(f[2], 10, 32)
 				tok, _ := lp.ParseHex(f[3])
-				if err := sc.cc.Process(nil, buildReq(parseType(f[1]), int32(mid), tok, f[4])); err != nil {
-					segs = append(segs, "process-error")
-					continue
-				}
+				sc.lk.inject(buildReq(parseType(f[1]), int32(mid), tok, f[4]))
 			case "par":
 				k, _ := strconv.Atoi(f[1])
 				mid, _ := strconv.ParseInt(f[3], 10, 32)
 				tok, _ := lp.ParseHex(f[4])
 				dg := buildReq(parseType(f[2]), int32(mid), tok, f[5])
 				for i := 0; i < k; i++ {
-					go func() { _ = sc.cc.Process(nil, dg) }()
+					go func() { sc.lk.inject(dg) }()
 				}
 			case "blk":
 				mid, _ := strconv.ParseInt(f[2], 10, 32)
@@ -256,7 +388,7 @@ func runScenario(t *testing.T, line string) (out string) {
 				sc.mu.Lock()
 				sc.autoAck = false
 				sc.mu.Unlock()
-				_ = sc.cc.Process(nil, buildReq(parseType(f[1]), int32(mid), tok, "blk"))
+				sc.lk.inject(buildReq(parseType(f[1]), int32(mid), tok, "blk"))
 				synctest.Wait() // the handler is blocked in its own confirmable write (durably: a select)
 				time.Sleep(time.Duration(dur))
 				synctest.Wait()
@@ -265,7 +397,7 @@ func runScenario(t *testing.T, line string) (out string) {
 				// reader loop and stops at the per-MID mutex), then the handler is released.
 				dg := buildReq(parseType(f[6]), int32(mid), tok, "blk")
 				for i := 0; i < k; i++ {
-					go func() { _ = sc.cc.Process(nil, dg) }()
+					go func() { sc.lk.inject(dg) }()
 				}
 				for i := 0; i < 2000; i++ {
 					runtime.Gosched()
@@ -276,13 +408,15 @@ func runScenario(t *testing.T, line string) (out string) {
 				sc.unacked = nil
 				sc.mu.Unlock()
 				for _, m := range mids {
-					_ = sc.cc.Process(nil, buildAck(m))
+					sc.lk.inject(buildAck(m))
 				}
 			case "sleep":
 				d, _ := strconv.ParseInt(f[1], 10, 64)
 				time.Sleep(time.Duration(d))
 			case "tick":
-				sc.cc.CheckExpirations(time.Now())
+				sc.lk.tick(time.Now())
+			case "newconn":
+				// only meaningful for a datagram server
 			case "flush":
 				sc.mu.Lock()
 				sep := sc.sep
